@@ -81,6 +81,11 @@ func alphabet(thorough bool) []op {
 		{Name: "drop-trigger-tr", Kind: "drop-trigger", DB: "db1", SQL: "drop trigger tr", Apply: func(m *model) bool { return m.dropTrigger("db1", "tr") }},
 		{Name: "create-proc-p", Kind: "create-procedure", DB: "db1", SQL: "create procedure p() select 1", Apply: func(m *model) bool { return m.createProc("db1", "p", "select 1") }},
 		{Name: "drop-proc-p", Kind: "drop-procedure", DB: "db1", SQL: "drop procedure p", Apply: func(m *model) bool { return m.dropProc("db1", "p") }},
+		// a second procedure that names every characteristic and sorts before p in the listings
+		{Name: "create-proc-a", Kind: "create-procedure-characteristics", DB: "db1", SQL: "create procedure a() modifies sql data deterministic sql security invoker comment 'c' select 3", Apply: func(m *model) bool {
+			return m.createProcWith("db1", "a", mproc{Body: "select 3", DataAccess: "MODIFIES SQL DATA", Security: "INVOKER", Deterministic: "YES", Comment: "c"})
+		}},
+		{Name: "drop-proc-a", Kind: "drop-procedure", DB: "db1", SQL: "drop procedure a", Apply: func(m *model) bool { return m.dropProc("db1", "a") }},
 
 		{Name: "db2:create-t", Kind: "create-table", DB: "db2", SQL: "create table t (a int, c varchar(5) collate utf8mb4_general_ci not null default 'x', primary key (a))", Apply: func(m *model) bool { return m.createTable("db2", "t", tT2) }},
 		{Name: "db2:drop-t", Kind: "drop-table", DB: "db2", SQL: "drop table t", Apply: func(m *model) bool { return m.dropTable("db2", "t") }},
@@ -204,7 +209,7 @@ func (m *model) listings() []listing {
 			Cols:   []string{"trigger_schema", "trigger_name", "event_manipulation", "event_object_schema", "event_object_table", "action_timing", "action_statement"},
 			Expect: m.expectedTriggers()},
 		listing{Name: "information_schema.routines", Query: "select * from information_schema.routines where routine_schema in " + in,
-			Cols: []string{"routine_schema", "routine_name", "routine_type", "routine_definition"}, Expect: m.expectedRoutines()},
+			Cols: []string{"routine_schema", "routine_name", "routine_type", "routine_definition", "sql_data_access", "security_type", "is_deterministic", "routine_comment"}, Expect: m.expectedRoutines()},
 		listing{Name: "information_schema.schemata", Query: "select schema_name from information_schema.schemata",
 			Cols: []string{"schema_name"}, Expect: m.expectedSchemata(), Filter: func(c []string) bool { return userDB(c[0]) }},
 		listing{Name: "SHOW DATABASES", Query: "show databases", Cols: []string{"database"}, Expect: m.expectedSchemata(), Filter: func(c []string) bool { return userDB(c[0]) }},
@@ -443,20 +448,39 @@ func compare(l listing, s *eng.Session) []*mismatch {
 	case len(missing) == 0 && len(extra) == 0:
 		return nil
 	case len(missing) > 0 && len(extra) > 0:
-		// pair the first missing row with the most similar extra row to name the differing column
-		best, bestN := extra[0], -1
-		for _, x := range extra {
-			n := 0
-			for i := range x {
-				if i < len(missing[0]) && x[i] == missing[0][i] {
-					n++
+		// pair every missing row with the most similar unused extra row to name the differing
+		// columns (all pairs are reported: a row with a known difference must not hide another row)
+		var out []*mismatch
+		usedX := make([]bool, len(extra))
+		for _, ms := range missing {
+			best, bestN := -1, -1
+			for xi, x := range extra {
+				if usedX[xi] {
+					continue
+				}
+				n := 0
+				for i := range x {
+					if i < len(ms) && x[i] == ms[i] {
+						n++
+					}
+				}
+				if n > bestN {
+					best, bestN = xi, n
 				}
 			}
-			if n > bestN {
-				best, bestN = x, n
+			if best < 0 {
+				out = append(out, mm("missing-row", "(none)", strings.Join(ms, " | ")))
+				continue
+			}
+			usedX[best] = true
+			out = append(out, rowDiffs(extra[best], ms)...)
+		}
+		for xi, x := range extra {
+			if !usedX[xi] {
+				out = append(out, mm("extra-row", strings.Join(x, " | "), "(none)"))
 			}
 		}
-		return rowDiffs(best, missing[0])
+		return out
 	case len(missing) > 0:
 		return one(mm("missing-row", "(none)", strings.Join(missing[0], " | ")))
 	default:
@@ -787,7 +811,7 @@ func init() {
 		Rule: "BFS over DDL histories on a fresh two-database engine (hist explorer), each history replayed and, after its LAST statement, every catalogue listing compared with a catalog model (nested maps with MySQL's DDL semantics): " +
 			"information_schema.tables, columns, statistics, key_column_usage, table_constraints, referential_constraints, check_constraints, views, triggers, routines, schemata; SHOW DATABASES, SHOW [FULL] TABLES, SHOW [FULL] COLUMNS / DESCRIBE (tables and valid views), SHOW INDEXES, SHOW CREATE TABLE (column clauses in order, key/constraint clauses as a set), SHOW CREATE VIEW, SHOW TRIGGERS, SHOW PROCEDURE STATUS, and SHOW COLUMNS must fail for every name of the universe that does not exist; " +
 			"projected to names, ordinal positions, types, collations, nullability, defaults, key membership (COLUMN_KEY rule), index columns and uniqueness, constraint membership and referenced objects, definitions. " +
-			"Alphabet (37 statements quick / 39 thorough): create/drop/rename table, add (last/first/after)/drop/modify/rename column, add/drop index and unique index, add/drop primary key, add/drop foreign key (incl. cross-database), add/drop check, create/drop view/trigger/procedure in db1 and db2, drop/create database. " +
+			"Alphabet (39 statements quick / 41 thorough): create/drop/rename table, add (last/first/after)/drop/modify/rename column, add/drop index and unique index, add/drop primary key, add/drop foreign key (incl. cross-database), add/drop check, create/drop view/trigger/procedure in db1 and db2 (a second procedure in db1 names every characteristic: data access, determinism, security, comment), drop/create database. " +
 			"A statement the engine rejects leaves the model unchanged (the listings must then still equal it); a statement the model forbids (names a missing or duplicate object) is run as the last statement of histories up to length 2 and must leave the listings unchanged. " +
 			"Three start catalogs, each built by replaying alphabet statements: empty; tables (db1.t, db1.u, db2.t); rich (the tables plus index, unique index, foreign key, check, view, trigger, procedure, db2 view and index). " +
 			"Quick: every history of <= 3 statements from empty and <= 2 from tables and rich. Thorough: every history of <= 4 / 3 / 3 statements. No merging inside these bounds (state key = canonical model, used for the state count). " +
